@@ -7,10 +7,12 @@ Line-protocol driver for the C09 model (name → id assignment), see harness/int
   findtv <tagKeyId> <v>           | schema <metricId>
   series <shard> <metricId> <tagset> k:v k:v ...
   mseries <shard> <metricId> | tvseries <shard> <tagValueId> | tkseries <shard> <tagKeyId>
+  mflushfail | iflushfail <s>                 (the first dictionary flush that writes fails at its kv commit)
   mprepare | mflush | mflushcrash <k> | iprepare <s> | iflush <s> | iflushcrash <s> <k> | reopen | crash
   krace <nsBucket> <ns> <name>                (two callers, A stopped before createValue)
   srace tagkey|field <metricId> <nameA> <nameB>  (two callers, A stopped before the store lock)
   lflush <nsBucket> <ns> <name>               (GenMetricID of existing names ‖ a whole metadata flush)
+  scrace <metricId> <fb> <fc>                 (reader's GetSchema stopped before cache.Add ‖ writer fb ‖ flush; then writer fc)
   swindow field <metricId> <f>                (metadata flush; GenFieldID runs between the schema commit and MarkPersisted)
 
 The code variant (`Cfg`) and the default limits are the ones derived from the regenerated facts.
@@ -117,6 +119,17 @@ def step (nd : Node) (ws : List String) : Node × String :=
     | _, _ => bad
   | ["mprepare"] => (nd.metaPrepareE cfg.prepareSwapsEmpty, "ok")
   | ["mflush"] => (nd.metaFlush, "ok")
+  | ["mflushfail"] =>
+    let k := nd.metaFlushFailAt
+    (nd.metaFlushPrefix k, if k < 5 then "err flush-failed" else "ok")
+  | ["iflushfail", sh] =>
+    match sh.toNat? with
+    | some sh =>
+      if sh < nd.nShards then
+        let k := nd.indexFlushFailAt sh
+        (nd.indexFlushPrefix sh k, if k < 4 then "err flush-failed" else "ok")
+      else bad
+    | none => bad
   | ["mflushcrash", k] =>
     match k.toNat? with
     | some k => if k ≤ 5 then ((nd.metaFlushPrefix k).recover, "ok") else bad
@@ -164,6 +177,12 @@ def step (nd : Node) (ws : List String) : Node × String :=
   | ["lflush", nb, ns, name] =>
     match nb.toNat?, ns.toNat?, name.toNat? with
     | some nb, some ns, some name => let r := nd.lookupFlushRace cfg nb ns name; (r.1, showOut r.2)
+    | _, _, _ => bad
+  | ["scrace", m, fb, fc] =>
+    match m.toNat?, fb.toNat?, fc.toNat? with
+    | some m, some fb, some fc =>
+      let r := nd.schemaCacheRace cfg m fb fc
+      (r.1, s!"B={showOut r.2.1} C={showOut r.2.2}")
     | _, _, _ => bad
   | ["swindow", "field", m, f] =>
     match m.toNat?, f.toNat? with
